@@ -138,7 +138,7 @@ FRAMEWORK_CLASSES = {"InputReady": InputReadySignal, "InputReceived": InputRecei
 
 class World:
     def __init__(self, case):
-        self.case = case; self.screens = {}; self.srcs = {}; self.classes = {}; self.ucalls = {}
+        self.case = case; self.screens = {}; self.srcs = {}; self.classes = {}; self.ucalls = {}; self.sigs = {}
     def obj(self, ref):
         if ref is None: return None
         ref = tuple(ref)
@@ -159,7 +159,11 @@ class World:
     def _act(self, a, me=None):
         loop = App.get_event_loop(); sch = App.get_scheduler(); k = a[0]
         if k == "enq":
-            s = self.cls(a[1])(self.obj(a[3]), a[2]); s.sid = a[4]; loop.enqueue_signal(s)
+            # an id used before means: the application enqueues the very same signal object again (possibly while an earlier occurrence is still pending)
+            if a[4] in self.sigs: s = self.sigs[a[4]]
+            else:
+                s = self.cls(a[1])(self.obj(a[3]), a[2]); s.sid = a[4]; self.sigs[a[4]] = s
+            loop.enqueue_signal(s)
         elif k == "reg_source": loop.register_signal_source(self.obj(a[1]))
         elif k == "reg_handler":
             # a handler the application registers while the loop is running (an entry of case["handlers"] marked late)
